@@ -581,8 +581,9 @@ def child_options(src: Src, tier: str):
 
 
 def cases_of_unit(unit):
-    plan, fill, lines, tier = unit
+    plan, fill, lines, tier, part = unit
     extra = tier == "thorough" and len(lines) < 4     # extra column indent//2
+    quick_tier = tier == "quick"
     base = {"kind": "diag", "fill": list(fill), "lines": [list(x) for x in lines]}
     if plan == "W":
         for t in LABELS_ALL[1:] + ["long"]:
@@ -607,28 +608,27 @@ def cases_of_unit(unit):
                        "children": [{"k": "note", "span": list(sp), "label": lb, "msg": "none"}]}
     elif plan == "B1":
         opts = child_options(src, tier)
-        for sp in src.reduced_spans():
+        for sp in src.reduced_spans()[part:part + 1]:
             for lb in LABELS_ALL:
                 for m in MSGS_ALL:
                     yield {**base, "span": list(sp), "label": lb, "msg": m, "children": []}
                     for o in opts:
                         yield {**base, "span": list(sp), "label": lb, "msg": m, "children": [o]}
-        # whitespace-only texts (extra edge)
-        sp = src.reduced_spans()[0]
-        yield {**base, "span": list(sp), "label": "ws", "msg": "none", "children": []}
-        yield {**base, "span": list(sp), "label": "none", "msg": "ws", "children": []}
+        if part == 0:                                 # whitespace-only texts (extra edge)
+            sp = src.reduced_spans()[0]
+            yield {**base, "span": list(sp), "label": "ws", "msg": "none", "children": []}
+            yield {**base, "span": list(sp), "label": "none", "msg": "ws", "children": []}
     elif plan == "B2":
         opts = child_options(src, tier)
         sp = src.reduced_spans()[0]
-        for lb in ("none", "words80"):
-            for m in ("none", "long"):
-                for o1, o2 in itertools.product(opts, opts):
-                    yield {**base, "span": list(sp), "label": lb, "msg": m, "children": [o1, o2]}
+        lb, m = [(a, b) for a in ("none", "words80") for b in ("none", "long")][part]
+        for o1, o2 in itertools.product(opts, opts):
+            yield {**base, "span": list(sp), "label": lb, "msg": m, "children": [o1, o2]}
     elif plan == "S":
         for sp in src.all_spans(extra):
             for prefix in (0, 1, 3):
                 for prim in (True, False):
-                    for maxl in (sp[2], 12345):
+                    for maxl in (sp[2], 12345) if not quick_tier else ((sp[2],) if prim else (12345,)):
                         yield {"kind": "snippet", "fill": list(fill), "lines": [list(x) for x in lines],
                                "span": list(sp), "label": "short" if prim else "none",
                                "primary": prim, "prefix": prefix, "maxl": maxl}
@@ -704,42 +704,42 @@ def line_options(tier):
 def units(tier):
     lo = line_options(tier)
     quick = tier == "quick"
-    us = [("W", (0, 0), (), tier), ("N", (0, 0), (), tier)]
+    us = [("W", (0, 0), (), tier, 0), ("N", (0, 0), (), tier, 0)]
     # A: geometry
     for n in (1, 2):
         for ls in itertools.product(lo, repeat=n):
-            us.append(("A", (0, 0), ls, tier))
+            us.append(("A", (0, 0), ls, tier, 0))
     if quick:
-        # complete smaller bounds for 3 and 4 lines: ALL indent vectors; 3 lines: every
-        # first/last length, middle length 10; 4 lines: one length per source, no label
+        # complete smaller bounds for 3 and 4 lines (plan A0 = no label): ALL indent
+        # vectors; 3 lines: every first/last length, middle length 10; 4 lines: length 10
         for inds in itertools.product(INDENTS, repeat=3):
             for la in LENGTHS:
                 for lc in LENGTHS:
-                    us.append(("A", (0, 0), ((inds[0], la), (inds[1], 10), (inds[2], lc)), tier))
-        for ln in LENGTHS:
+                    us.append(("A0", (0, 0), ((inds[0], la), (inds[1], 10), (inds[2], lc)), tier, 0))
+        for ln in (10,):
             for inds in itertools.product(INDENTS, repeat=4):
-                us.append(("A0", (0, 0), tuple((i, ln) for i in inds), tier))
+                us.append(("A0", (0, 0), tuple((i, ln) for i in inds), tier, 0))
     else:
         for ls in itertools.product(lo, repeat=3):
-            us.append(("A", (0, 0), ls, tier))
+            us.append(("A", (0, 0), ls, tier, 0))
         # 4 lines: the stated grid completely (empty line / extra column only up to 3 lines)
         for ls in itertools.product(line_options("quick"), repeat=4):
-            us.append(("A", (0, 0), ls, tier))
+            us.append(("A", (0, 0), ls, tier, 0))
     fills = ((8, 0), (8, 20), (98, 20))
     for fill in fills:
         for n in (1, 2) if quick else (1, 2, 3):
             for ls in itertools.product(line_options("quick"), repeat=n):
-                us.append(("A", fill, ls, tier))
+                us.append(("A", fill, ls, tier, 0))
     # C: child-span geometry
     for fill in ((0, 0), (8, 20)):
         for n in (1, 2) if quick else (1, 2, 3):
             for ls in itertools.product(line_options("quick"), repeat=n):
-                us.append(("C", fill, ls, tier))
+                us.append(("C", fill, ls, tier, 0))
     # S: direct render_snippet
     for fill in ((0, 0), (3, 20)) if quick else ((0, 0), (3, 20), (3, 4)):
         for n in (1, 2):
             for ls in itertools.product(line_options("quick"), repeat=n):
-                us.append(("S", fill, ls, tier))
+                us.append(("S", fill, ls, tier, 0))
     # B: texts and children
     if quick:
         bsrc = [((0, 0), ((0, 70),)), ((0, 0), ((20, 10),)),
@@ -755,19 +755,20 @@ def units(tier):
         b2src = [((0, 0), ls) for n in (1, 2)
                  for ls in itertools.product([(0, 10), (0, 70), (20, 10), (20, 70)], repeat=n)]
         b2src += bsrc[-4:]
-    for fill, ls in bsrc:
-        us.append(("B1", fill, ls, tier))
+    # the heavy text units are split into parts (one reduced span / one (label, message)
+    # variant each) and come first so that the pool is evenly loaded
+    heavy = []
     for fill, ls in b2src:
-        us.append(("B2", fill, ls, tier))
-    return us
+        heavy += [("B2", fill, ls, tier, part) for part in range(4)]
+    for fill, ls in bsrc:
+        heavy += [("B1", fill, ls, tier, part) for part in range(len(get_src(fill, ls).reduced_spans()))]
+    return heavy + us
 
 
 # ------------------------------------------------------------------------------- run
 def run(ctx):
     us = units(ctx.tier)
-    heavy = [u for u in us if u[0] in ("B1", "B2")]
-    light = [u for u in us if u[0] not in ("B1", "B2")]
-    results = ctx.pmap(run_unit, heavy, chunk=1) + ctx.pmap(run_unit, light, chunk=16)
+    results = ctx.pmap(run_unit, us, chunk=1 if ctx.quick else 4, recycle=2000)
     st = new_stats()
     n = 0
     per_plan: dict = {}
